@@ -71,7 +71,17 @@ def scenario(draw, n, mode):
             'ignA': [draw(gen.ignored_values), draw(gen.ignored_values)],
             'ignB': [draw(gen.ignored_values), draw(gen.ignored_values)],
         })
-    if draw(st.integers(0, 3)) == 0:
+    int_pools = draw(st.integers(0, 3)) == 0
+    if int_pools:
+        # photometry in whole mJy (counts, rounded catalogues): fitted and limit values become integers, the ignored values
+        # of variant A too (-999 placeholders), those of variant B do not (-999.5)
+        for p_ in pools:
+            F = float(max(1, round(p_['fit1'][0])))
+            p_['fit1'] = [F, float(max(1, round(p_['fit1'][1])))]
+            p_['lim'] = [float(max(1, round(p_['lim'][0]))), 1. if p_['lim'][1] >= 0.5 else 0.]
+            p_['ignA'] = [-999., -999.]
+            p_['ignB'] = [-999.5, 0.25]
+    if not int_pools and draw(st.integers(0, 3)) == 0:
         # a flag-1 point of about 1 mJy whose transform log10 F - 0.5 (sigma/F)^2 / ln10 is 0 (to rounding): its flag-4 twin
         # carries the value 0.0 itself, a legal log10 flux
         j0 = draw(st.integers(0, n - 1))
@@ -79,7 +89,7 @@ def scenario(draw, n, mode):
         F0 = 10. ** (0.5 * r * r / of.LN10)
         pools[j0]['fit1'] = [F0, r * F0]
         pools[j0]['twin_zero'] = True
-    sc = {'law': law, 'filters': filters, 'pools': pools, 'mode': mode,
+    sc = {'law': law, 'filters': filters, 'pools': pools, 'mode': mode, 'int_pools': int_pools,
           'av_range': draw(st.sampled_from([[0., 10.], [-1e3, 1e3], [0., 1.], [2., 2.]])),
           'theta': draw(st.lists(st.floats(0.5, 10., allow_nan=False), min_size=n, max_size=n))}
     if mode == '2d':
@@ -152,7 +162,12 @@ def make_source(sc, vec, ign='ignA', limits='asis', fit1_as4=False, nine_as_zero
                 flags.append(f)
                 flux.append(p['lim'][0])
                 err.append(p['lim'][1])
-    return {'name': 'src', 'x': 0., 'y': 0., 'flags': flags, 'flux': flux, 'err': err}
+    src = {'name': 'src', 'x': 0., 'y': 0., 'flags': flags, 'flux': flux, 'err': err}
+    if sc.get('int_pools') and all(abs(v) < 1e15 and float(v) == int(v) for v in flux):
+        # whole-number photometry reaches the fitter as the integer arrays numpy makes of it; one non-integral value
+        # anywhere (e.g. in an ignored band) makes the whole array floating point - the fits must not depend on that
+        src['int_arrays'] = True
+    return src
 
 
 def by_name(info):
